@@ -15,6 +15,9 @@ OPS += [
  # n-ary operators with closed sources plugged into their slots (Ops/Plug.lean, Inv/PlugSafe.lean): concat!(A, B), merge!(A, src), …
  ("plugged", "{S1 L1 S2 L2 α β γ : Type} {M1 : Machine S1 L1 α β} {M2 : Machine S2 L2 β γ} (H : PlugSafe.HypP M1 M2) (j : Nat)",
   "plug j M1 M2", "PlugSafe.plug_basicSafe H j s hs", "PlugSafe"),
+ # flatten(map(g)(outer)) as a network with dynamically created inner sources (Ops/FlatPlug.lean, Inv/FlatPlugSafe.lean)
+ ("flatten_network", "{So Lo Si Li αo αi : Type} {Mo : Machine So Lo αo Int} {Mi : Machine Si Li αi Int} {initOf : Int → Si}\n    (H : FlatPlugSafe.HypF Mo Mi initOf)",
+  "flatPlug Mo Mi initOf", "FlatPlugSafe.flatPlug_basicSafe H s hs", "FlatPlugSafe"),
 ]
 READABLE = {
  "01": ("GreetFirstOnce", "greetFirstOnce_of_clean hs (fun v hv => h.1 v (by unfold G.viols; exact List.mem_append_right _ hv)) k",
